@@ -1,17 +1,22 @@
 package harness
 
 import (
+	"bytes"
 	"crypto/ecdsa"
 	"crypto/elliptic"
 	"crypto/rand"
 	"crypto/rsa"
 	"encoding/json"
 	"fmt"
+	"io"
+	"net/http"
 	"net/url"
 	"sync"
 	"time"
 
+	"github.com/dgraph-io/ristretto"
 	"github.com/go-jose/go-jose/v3"
+	"github.com/hashicorp/go-retryablehttp"
 
 	"github.com/ory/fosite"
 	"github.com/ory/fosite/storage"
@@ -118,13 +123,51 @@ func runC15(rep *TReport, raw json.RawMessage) {
 			regKey, regPub = ek, &ek.PublicKey
 			otherKey, thirdK = extraECKey("other"), extraECKey("third")
 		}
+		if regalg == "PS256" { // same RSA keys, probabilistic signature scheme
+			regKey, regPub = rk2, &rk2.PublicKey
+		}
 		base := newClient("J", f("method") == "none")
 		base.RedirectURIs = []string{"https://j.example/cb"}
 		base.Scopes = []string{"a"}
 		base.Secret = []byte("plain:secret-of-J-secret-of-J-secret-of-J")
-		w.Mem.Clients["J"] = &fosite.DefaultOpenIDConnectClient{DefaultClient: base, TokenEndpointAuthMethod: f("method"),
-			TokenEndpointAuthSigningAlgorithm: regalg,
-			JSONWebKeys:                       &jose.JSONWebKeySet{Keys: []jose.JSONWebKey{{Key: regPub, KeyID: "kid-j", Use: "sig", Algorithm: regalg}}}}
+		jwks := &jose.JSONWebKeySet{Keys: []jose.JSONWebKey{{Key: regPub, KeyID: "kid-j", Use: "sig", Algorithm: regalg}}}
+		oc := &fosite.DefaultOpenIDConnectClient{DefaultClient: base, TokenEndpointAuthMethod: f("method"), TokenEndpointAuthSigningAlgorithm: regalg, JSONWebKeys: jwks}
+		if src := f("keysrc"); src != "inline" {
+			// the keys live behind jwks_uri; the real DefaultJWKSFetcherStrategy fetches them through an in-memory transport.
+			// uri_stale: the strategy's cache holds an older key set without the key (it was rotated in afterwards).
+			oc.JSONWebKeys, oc.JSONWebKeysURI = nil, "https://j.example/jwks.json"
+			stale := &jose.JSONWebKeySet{Keys: []jose.JSONWebKey{{Key: &unregisteredKey().PublicKey, KeyID: "kid-old", Use: "sig", Algorithm: "RS256"}}}
+			fetches := 0
+			hc := retryablehttp.NewClient()
+			hc.Logger = nil
+			hc.RetryMax = 0
+			hc.HTTPClient = &http.Client{Transport: roundTrip(func(rq *http.Request) (*http.Response, error) {
+				fetches++
+				set := jwks
+				if src == "uri_stale" && fetches == 1 {
+					set = stale
+				}
+				b, _ := json.Marshal(set)
+				return &http.Response{StatusCode: 200, Header: http.Header{"Content-Type": {"application/json"}}, Body: io.NopCloser(bytes.NewReader(b)), Request: rq}, nil
+			})}
+			cache, err := ristretto.NewCache(&ristretto.Config[string, *jose.JSONWebKeySet]{NumCounters: 1000, MaxCost: 100, BufferItems: 64,
+				Cost: func(*jose.JSONWebKeySet) int64 { return 1 }})
+			if err != nil {
+				panic(err)
+			}
+			defer cache.Close()
+			fs := fosite.NewDefaultJWKSFetcherStrategy(fosite.JWKSFetcherWithHTTPClient(hc), fosite.JWKSFetcherWithCache(cache))
+			w.Config.JWKSFetcherStrategy = fs
+			if src == "uri_stale" { // warm the cache with the stale set
+				_, _ = fs.Resolve(w.ctx(1), oc.JSONWebKeysURI, false)
+				cache.Wait()
+			}
+		}
+		if f("method") == "plain_client" {
+			w.Mem.Clients["J"] = base
+		} else {
+			w.Mem.Clients["J"] = oc
+		}
 		kbase := newClient("K", false)
 		kbase.RedirectURIs = []string{"https://k.example/cb"}
 		w.Mem.Clients["K"] = &fosite.DefaultOpenIDConnectClient{DefaultClient: kbase, TokenEndpointAuthMethod: "private_key_jwt",
@@ -169,7 +212,7 @@ func runC15(rep *TReport, raw json.RawMessage) {
 		alg := regalg
 		switch f("alg") {
 		case "other_asymmetric":
-			if regalg == "RS256" {
+			if regalg == "RS256" || regalg == "PS256" {
 				alg, key = "ES256", ek
 			} else {
 				alg = "RS256"
@@ -191,6 +234,14 @@ func runC15(rep *TReport, raw json.RawMessage) {
 			req := postReq("/token")
 			form := url.Values{"grant_type": {"client_credentials"}, "scope": {"a"},
 				"client_assertion_type": {"urn:ietf:params:oauth:client-assertion-type:jwt-bearer"}, "client_assertion": {assertion}}
+			switch f("form") {
+			case "empty_assertion":
+				form.Set("client_assertion", "")
+			case "unknown_type":
+				form.Set("client_assertion_type", "urn:ietf:params:oauth:client-assertion-type:saml2-bearer")
+			case "with_other_client_id":
+				form.Set("client_id", "K")
+			}
 			finishPost(req, form)
 			o, _, _ := w.tokenCall(1, req, true)
 			return o
